@@ -49,6 +49,16 @@ struct addr_deref_fn {
     result_type operator()(rgb8_pixel_t const& p) const { return result_type((std::int64_t)&p); }
 };
 using k_deref   = rgb8c_view_t::add_deref<addr_deref_fn>::type;
+// the same with state: the recorded cell is shifted by a run-time offset held in the function object, so a view
+// transformation that rebuilds the iterators with a default-constructed function object is visible
+struct addr_off_deref_fn {
+    using const_t = addr_off_deref_fn; using value_type = addr_pixel_t; using reference = value_type;
+    using const_reference = value_type; using argument_type = rgb8_pixel_t const&; using result_type = reference;
+    static constexpr bool is_mutable = false;
+    std::int64_t off = 0;
+    result_type operator()(rgb8_pixel_t const& p) const { return result_type((std::int64_t)&p + off); }
+};
+using k_derefs  = rgb8c_view_t::add_deref<addr_off_deref_fn>::type;
 
 // virtual view: the dereference function returns its point packed into a pixel so that the probe
 // sees which point reached it
